@@ -34,6 +34,8 @@ fixed("C10","C10|command|smpp34.Bind|flavour; C10|resp-type|smpp34.Bind|flavour"
 fixed("C10","C10|dispatch|smpp34.UnBindResp|unsupported; C10|dispatch|sgip12.UnbindResp|unsupported; C10|dispatch|cmpp20.PduQuery(Resp)|unsupported","a35895d","dispatchers did not know PDUs their packages encode")
 fixed("C10","C10|resp-seq|sgip12.*|word=0/1","5a1a4cd","SGIP responses carried time.Now() / the sequence id instead of the request's three sequence words")
 fixed("C16","C16|add-lost|smgp.Options|nil-map","d1ea293","Options.Add on a nil map was lost (value receiver)")
+fixed("C06","C06|reported-coding|{cmpp20,cmpp30,smpp}/UCS2|req=invalid-number","f2cc1a6","split entry points reported the caller's unsupported data-coding number although the parts are UCS-2")
+fixed("C14","C14|part-undecodable|*/UCS2|surrogate-pair; */GB18030|multi-octet-char; smpp/GSM7-unpacked|escape-pair","ab5c7c5","generic splitter cut surrogate pairs, GB18030 characters and unpacked GSM-7 escape pairs in two at 134/153")
 fixed("C02","C02|decode|smgp30.ActiveTestResp|refused","HEAD~0","smgp30.ActiveTestResp.IDecode refused the 12-octet Active_Test_Resp of the specification")
 
 import subprocess
